@@ -155,10 +155,8 @@ def Ini.loadFile (c : Ini) (f : FileC) : Ini :=
     if sec.1 == defaultSect then { c with defaults := sectUpdate c.defaults sec.2 }
     else { c with sections := mapSet sec.1 (sectUpdate (c.sect sec.1) sec.2) c.sections }) c
 
-/-- the file content `cfg.write` produces, as a reader will see it -/
-def Ini.toFile (c : Ini) : FileC :=
-  let rd (s : Sect) : List (Str × Str) := s.map fun kv => (kv.1, strip kv.2)
-  (defaultSect, rd c.defaults) :: c.sections.map fun sec => (sec.1, rd sec.2)
+/-- the file content `cfg.write` produces: DEFAULT first, then the sections, values as stored (a reader strips them) -/
+def Ini.toFile (c : Ini) : FileC := (defaultSect, c.defaults) :: c.sections
 
 /-- raw lookup in a sect with DEFAULT showing through (`_unify_values`) -/
 def Ini.raw (c : Ini) (sect : Str) (k : Name) : Option Str :=
@@ -370,12 +368,12 @@ def arg2config (ty : CfgTy) (v : CfgVal) : PyM Str :=
   | .list, v => .ok (writeList (pyStr v))
 
 /-- outcome of `test_cfg_val(opt, value)`: write the value, leave the section alone, or (value equal to the
-    library default) drop what the section stores for the option -/
+    library default) write it only if the file already says something for the option -/
 inductive CfgAction where
-  | write | skip | drop
+  | write | skip | ifStored
   deriving DecidableEq, Repr
 
-/-- `test_cfg_val(opt, value)` -/
+/-- `test_cfg_val(opt, value)` up to the `has_option` test -/
 def testCfgVal (T : Tables) (defaultsUid : PyM Str) (libCfg : Map) (opt : Name) (value : CfgVal) : PyM CfgAction :=
   if isNullArg value then pure .skip
   else do
@@ -388,7 +386,7 @@ def testCfgVal (T : Tables) (defaultsUid : PyM Str) (libCfg : Map) (opt : Name) 
         | some d => pure d
         | none => .error .key
       let ref := (libCfg.lookup opt).getD dflt
-      pure (if pyEq value ref then .drop else .write)
+      pure (if pyEq value ref then .ifStored else .write)
 
 /-- one turn of the loop `for opt, opt_type in CONFIGURABLE.items()` of `mk_server_cfg` -/
 def writeOpt (T : Tables) (args : Chain) (libCfg : Map) (server : Str) (cfg : Ini) (ot : Name × CfgTy) : PyM Ini :=
@@ -399,12 +397,13 @@ def writeOpt (T : Tables) (args : Chain) (libCfg : Map) (server : Str) (cfg : In
       match cfg.get defaultSect "clientuid".toList with
       | some u => pure u
       | none => .error .key
-    match ← testCfgVal T uid libCfg ot.1 value with
-    | .write => do
+    let act ← testCfgVal T uid libCfg ot.1 value
+    -- `USERCFG.has_option(server, opt)`: the section or DEFAULT holds the option
+    let doWrite := act == .write || (act == .ifStored && (cfg.get server (lower ot.1)).isSome)
+    if doWrite then do
       let s ← arg2config ot.2 value
       pure (cfg.set server ot.1 s)
-    | .drop => pure (cfg.removeOption server ot.1)
-    | .skip => pure cfg
+    else pure cfg
 
 /-- the configuration `mk_server_cfg` starts from: `USERCFG.clear()` (keeps DEFAULT), `USERCFG.read(USERCONFIGPATH)`,
     a global CLIENTUID if there is none -/
